@@ -55,9 +55,9 @@ CLAIMED = {
         note="fragmentation below the model's grain (exercised by the fragmenting conn); hashes are FNV-64; the race scenario is forced through the Route gate.",
         design_ref="§5 C09, Appendix C", engine="muxer"),
     "C15": dict(
-        technique="TLA+ model of the blocking API layer over the engine's shutdown (ClientApi.tla), instantiated from a table whose deciding attributes are extracted from the tree under test (go/ast); TLC liveness per (API call, adversarial peer script); each case executed by a raw peer against the real client/server inside a real Connection",
+        technique="TLA+ model of the blocking API layer over the engine's shutdown (ClientApi.tla), instantiated from a table whose deciding attributes are extracted from the tree under test (go/ast); TLC liveness per (API call, adversarial peer script); each case executed by a raw peer against the real client/server inside a real Connection; plus four life-cycle models (ServerRestart.tla, ClientStop.tla, KeepAliveTimer.tla, BulkSend.tla) whose TLC-enumerated behaviours are replayed the same way",
         text="Call/handler/cleanup goroutines, DoneChan closing only after recvLoop exits, handlers running inside recvLoop; liveness ConnEnded ~> CallReturned, CloseCalled ~> CloseReturned and ErrorChanClosed and NoGoroutines; TLC decides for every (API, script of <= 2-3 steps over correct / wrong-kind / forbidden / surplus reply, silence, truncation, malformed bytes, stalled reader, close) whether the call returns and what leaks; prediction and observation (return within a generous deadline, Close returns, ErrorChan closed, goroutine snapshot diff) must agree both ways.",
-        note="17 blocking calls of the 7 anchored files; a hang verdict needs deadline + peer wrote everything + two goroutine dumps showing the caller parked in the library; Leios/DMQ clients and client Stop() paths not in the table.",
+        note="17 blocking calls of the 7 anchored files; a hang verdict needs deadline + peer wrote everything + two goroutine dumps showing the caller parked in the library; server restarts after Done, client Stop() paths, the keep-alive timer chain and bulk sends (>= 1 MiB) to a stalled peer that then closes are covered by the life-cycle models; Leios/DMQ clients not in the table.",
         design_ref="§5 C15", engine="clients"),
     "C16": dict(
         technique="TLA+ reference automata of all mini-protocols (MiniProtocols.tla) and product construction with the implementation's state maps as TLC constants (ProtoEquiv.tla, TB); TLC-emitted label sequences with one-step deviations replayed through the real engine in both roles",
